@@ -836,7 +836,8 @@ class MarkFeatureWriter(BaseFeatureWriter):
         if not attachments:
             return
         prefix = (featureTag + "_") if featureTag is not None else ""
-        lookupName = f"{prefix}mark2mark_{anchorName}"
+        # (the anchor name may hold characters that are not legal in a lookup name)
+        lookupName = ast.makeFeaClassName(f"{prefix}mark2mark_{anchorName}")
         filteringClass = self._makeMarkFilteringSetClass(
             lookupName,
             attachments,
